@@ -200,7 +200,7 @@ pub fn run(tier: Tier, seed: u64) -> Report {
     let r = run_pbt(
         "antichains",
         seed,
-        tier.pick(1_500, 60_000),
+        tier.pick(10_000, 300_000),
         || {
             (sets::script(60, false), proptest::collection::vec(any::<u16>(), 0..8))
                 .prop_map(|(mut script, refine)| {
